@@ -222,6 +222,22 @@ def i2d(bits=64):
     return z3.Function("int_to_fp%d" % bits, z3.IntSort(), z3.Float64() if bits == 64 else z3.Float32())
 
 
+def i2d_facts(t):
+    """ground instance, for the integer term t, of the ASSUMED facts about the uninterpreted int -> double conversion of
+    magnitudes: not NaN, not negative, zero exactly for 0, below 2**53 exactly when the magnitude is"""
+    m = z3.If(t < 0, -t, t)
+    f = i2d(64)(m)
+    two53 = z3.FPVal(float(2 ** 53), z3.Float64())
+    return z3.And(z3.Not(z3.fpIsNaN(f)), z3.Not(z3.fpIsNegative(f)), z3.fpLT(f, two53) == (m < 2 ** 53), z3.fpIsZero(f) == (m == 0))
+
+
+def nearest_fp(t, bits=64):
+    """the floating-point value nearest to the integer t (spec side and subject side share this definition): the
+    uninterpreted conversion of the magnitude with the sign applied"""
+    f = i2d(bits)(z3.If(t < 0, -t, t))
+    return z3.If(t < 0, z3.fpNeg(f), f)
+
+
 # ------------------------------------------------------------------------------- executor
 
 class CExec:
@@ -343,10 +359,20 @@ class CExec:
                 # (double) of a symbolic integer: an uninterpreted function (same symbol on the spec side), because
                 # int -> real -> fp conversion of an unbounded integer defeats the FP solver; i2d is C's
                 # round-to-nearest conversion, exact for |v| <= 2**53 (binary64)
-                return CV(ty, i2d(ty.bits)(v.t))
+                return CV(ty, self.int_to_fp(st, v.t, ty.bits))
         if ty.kind == "void":
             return v
         raise OutOfSubset("conversion %s -> %s" % (v.ty.name, ty.name))
+
+    def int_to_fp(self, st, t, bits=64):
+        """(double) t for a symbolic integer: `nearest_fp` below, plus GROUND instances of the assumed facts about the
+        uninterpreted conversion for this very term (never a quantified axiom: VCs stay ground)"""
+        if bits == 64:
+            st.path.append(i2d_facts(t))
+            self.assumptions.add("int -> double conversion: an uninterpreted function of the magnitude, applied with the sign (C's and "
+                                 "CPython's conversions are odd); ASSUMED per converted term: not NaN, non-negative on magnitudes, zero only "
+                                 "for 0, and below 2**53 exactly when the magnitude is")
+        return nearest_fp(t, bits)
 
     def tdiv(self, st, a, b, node):
         """truncating quotient and remainder of Int terms (b != 0 already obliged)."""
